@@ -1,10 +1,34 @@
-HOOK_COMMITS = ["c99bd4d"]
+HOOK_COMMITS = ["c99bd4d", "2b50260", "a9b7862"]
 NOT_APPLICABLE = {}
 _KB_NOTE = ("K = 16 is a compile-time constant of the code: exhaustive TLC runs use K = 2/3, the code is bound at K = 16 by TLC simulation "
             "walks (with scripted prefixes that fill a bucket / set up the IP-limit corner) and seeded random driver runs, each validated by TLC "
             "against the same parametric specification. Model keys are embedded in 256-bit ids by bit placement (order preserving); virtual time "
             "by the KBucketsTable::verif_age hook.")
+_H_NOTE = ("The real Handler::start() loop is driven in lockstep on a paused tokio clock over a virtual socket (hooks H1-H3); the harness plays the "
+           "application, honest peers and the attacker with real keys through the crate's own packet/session primitives and attributes every datagram "
+           "to the session key that decrypts it. socket/recv.rs and send.rs are bypassed. Cryptography is symbolic in the specification.")
+_H_TECH = ("TLA+ spec of the handler (Handler.tla: handler/mod.rs, session.rs, active_requests.rs transcribed function by function, composed with an "
+           "environment of peers/attacker/network in MC_Handler.tla) model-checked with TLC; TLC coverage-goal counterexamples and simulation walks "
+           "replayed on the real Handler; every recorded step validated by TLC: strict conformance (events, datagrams, exemption map, bookkeeping) and ")
 META = {
+ "C01": dict(technique=_H_TECH + "the monitor formulas C01.Attribution / C01.KeyDisclosed over attributed observations",
+   text="Design level: exhaustive TLC runs of handler + Dolev-Yao style attacker (own key, own/any record, any source address, replay) within small budgets with AuthInv/AuthEvInv. Code level: the generated attack behaviours (forged handshakes with own/newer/no record, from the attacker's and the victim's address, interleaved with genuine traffic) are executed against the real handler and every HandlerOut event and emitted datagram is judged by TLC. Bounded model checking + conformance, not a cryptographic proof.",
+   note=_H_NOTE),
+ "C02": dict(technique="TLC-generated base behaviours (sessions fresh / re-keyed / awaiting record) extended with a tamper catalogue concretised at byte level in the unmasked domain (flip, truncate, extend, splice, redirect, other source address); TLC monitor formulas C02.Delivered / C02.MutantAccepted on the recorded traces",
+   text="Every delivered request/response must be a plaintext the attributed party really encrypted; no tampered variant of any injected datagram may be delivered or establish a session. Quick: ~250 variants; thorough: every field with many bit positions, all splices. AEAD integrity itself is assumed.",
+   note=_H_NOTE + " Tampered behaviours are judged by the monitor pass only (no strict conformance)."),
+ "C03": dict(technique=_H_TECH + "the monitor formulas C03.ReplayAccepted / NoChallenge / WrongSource / TwoHandshakes; design-level action property ConsumeStep",
+   text="Replays of recorded handshakes and WHOAREYOUs at later points and from other addresses, second WHOAREYOUs, stale challenges: exhaustive in the small model (ConsumeStep: session keys change only in a step consuming exactly the outstanding challenge or answering a WHOAREYOU of an in-flight request), executed on the real handler for generated behaviours.",
+   note=_H_NOTE),
+ "C04": dict(technique=_H_TECH + "the monitor formulas C04.TwoOutcomes / EventAfterOutcome / NoOutcome (at quiescence) / TimeoutUnjustified / WireBound",
+   text="Exhaustive TLC exploration of two concurrent requests under loss, duplication, WHOAREYOU at any time, re-keying (OutcomeInv, ExactlyOne); every generated behaviour is run to quiescence on the real handler (virtual time advanced past every deadline) and each request must have exactly one outcome.",
+   note=_H_NOTE + " Liveness is checked on the code only in its bounded form (resolved at quiescence)."),
+ "C13": dict(technique=_H_TECH + "the monitor formulas C13.Count (lower/upper bound from a ledger of outstanding requests and challenges built from observations) and C13.LeftOver (empty map at quiescence); design-level invariant ExemptInv",
+   text="ExemptInv (exemptions of a socket = outstanding requests + outstanding challenges) is model-checked exhaustively; on the code the shared exemption map is read after every step and compared exactly with the specification (strict pass) and with an observation-only ledger (monitor pass).",
+   note=_H_NOTE + " The ledger is exact except for windows in which an outstanding item is invisible to an observer (undecryptable datagrams, rejected handshakes), where a range is accepted."),
+ "C19": dict(technique=_H_TECH + "the monitor formulas C19.NonceReuse / C19.IdNonceReuse over all captured datagrams grouped by the peer session that decrypts them",
+   text="Observes every datagram the handler emits in all generated behaviours (requests, responses, retransmissions, re-encryption after re-keying, handshakes, WHOAREYOUs): equal (key, nonce) implies byte-identical datagram; id-nonces never repeat.",
+   note=_H_NOTE + " Uniqueness of the random nonce parts is probabilistic and the 2^32 counter wrap is not reachable by execution."),
  "C07": dict(
    technique="TLA+ spec of the routing table (KBuckets.tla: bucket.rs/kbucket.rs/entry.rs transcribed call by call) model-checked exhaustively with TLC (invariants + action properties for the pending slot); TLC simulation behaviours replayed on the real KBucketsTable; implementation traces validated by TLC (C07 monitor formulas on observed tables + strict conformance)",
    text="All operation sequences over 4-5 keys, K = 2/3, every connection state/direction, incoming limit, pending timeout elapsed/not elapsed are explored exhaustively on the specification (complete reachable space, no depth bound, stamps rank-normalised); the specification is bound to the code by replaying TLC-generated behaviours at K = 16 on the real table and validating every recorded step (full table incl. first_connected_pos and pending timer) with TLC. Bounded model checking + conformance, not a proof for all sizes.",
@@ -20,5 +44,5 @@ META = {
  "C15": dict(
    technique="TLA+ spec of the session cache (LruTimeCache.tla) model-checked exhaustively with TLC; TLC goal/simulation behaviours replayed on the real LruTimeCache; implementation traces validated by TLC (monitor formulas NoStale/Bound/EvictLru + strict conformance)",
    text="Exhaustive TLC exploration of the cache specification for 3-4 keys, capacities 1-4, ttl 1-3 with explicit time; the same specification is bound to the code in both directions: TLC-generated behaviours are executed on the real cache and every recorded step is validated by TLC against the specification and the property formulas. Decides the design within the bounds and the code on every generated/driven behaviour; not a proof for all sizes.",
-   note="Virtual time by the verif_age hook (ageing stored instants) instead of real sleeping; the handler-level half of C15 (wire behaviour after an idle period) is bound by the handler part once built; u32 keys stand for NodeAddress."),
+   note="Virtual time by the verif_age hook (ageing stored instants) instead of real sleeping; the handler-level half (a session idle beyond the timeout is not used to encrypt or accept, cache bounded) is checked on the real handler by the monitor formulas C15.StaleSessionUsed / C15.Capacity; u32 keys stand for NodeAddress in the cache part."),
 }
